@@ -139,6 +139,31 @@ func dataJSON(id, size int) string {
 // blank line are `bad` too unless the harness cut the stream itself.
 // errMode: the single expected payload is an errors-only GraphQL response.
 func tokSSE(data []byte, sizes []int, cut, errMode bool) []Tok {
+	return tokSSEWith(data, cut, func(js string) (int, bool) { return matchSSEPayload(js, sizes, errMode) })
+}
+
+// isErrBlob recognises what handler.Server.ServeHTTP writes when it recovers a
+// panic of the transport (a payload that cannot be encoded): a bare GraphQL
+// error object - `{"errors":[{"message":...}],"data":null}` - and nothing else.
+func isErrBlob(b string) bool {
+	if !json.Valid([]byte(b)) {
+		return false
+	}
+	var r map[string]json.RawMessage
+	if json.Unmarshal([]byte(b), &r) != nil || len(r) != 2 || string(r["data"]) != "null" {
+		return false
+	}
+	var errs []struct {
+		Message string `json:"message"`
+	}
+	return json.Unmarshal(r["errors"], &errs) == nil && len(errs) == 1 && errs[0].Message != ""
+}
+
+// tokSSEWith is tokSSE with the payload oracle as a parameter: match says
+// which of the stream's payloads (1, 2, ...) the JSON of a `next` event is.
+// The bytes after the last blank line may be exactly the error object of a
+// recovered panic (token errblob).
+func tokSSEWith(data []byte, cut bool, match func(js string) (int, bool)) []Tok {
 	var out []Tok
 	add := func(t Tok) {
 		if n := len(out); n > 0 && out[n-1].K == t.K && (t.K == "ping" || t.K == "bad") {
@@ -150,7 +175,9 @@ func tokSSE(data []byte, sizes []int, cut, errMode bool) []Tok {
 	for p < len(data) {
 		j := bytes.Index(data[p:], []byte("\n\n"))
 		if j < 0 {
-			if !cut {
+			if isErrBlob(string(data[p:])) {
+				add(tok("errblob"))
+			} else if !cut {
 				t := tok("bad")
 				t.Raw = "unterminated: " + excerpt(data[p:], 120)
 				add(t)
@@ -168,7 +195,7 @@ func tokSSE(data []byte, sizes []int, cut, errMode bool) []Tok {
 			add(tok("complete"))
 		case strings.HasPrefix(blk, "event: next\ndata: ") && !strings.Contains(blk[len("event: next\ndata: "):], "\n"):
 			js := blk[len("event: next\ndata: "):]
-			id, ok := matchSSEPayload(js, sizes, errMode)
+			id, ok := match(js)
 			if ok {
 				t := tok("next")
 				t.ID = id
@@ -223,6 +250,14 @@ func matchSSEPayload(js string, sizes []int, errMode bool) (int, bool) {
 // header block (exactly Content-Type: application/json + blank line), JSON
 // line of the initial payload / of an incremental batch, closing delimiter.
 func tokMM(data []byte, boundary string, n int, sizes []int, cut bool) []Tok {
+	return tokMMWith(data, boundary, cut, func(ln string) (Tok, bool) { return matchMMPayload(ln, n, sizes) })
+}
+
+// tokMMWith is tokMM with the payload oracle as a parameter: match turns the
+// JSON line of a part into an init / incr token (ids = which payloads). An
+// unterminated last line may be exactly the error object of a recovered
+// panic (token errblob).
+func tokMMWith(data []byte, boundary string, cut bool, match func(ln string) (Tok, bool)) []Tok {
 	var out []Tok
 	add := func(t Tok) {
 		if m := len(out); m > 0 && out[m-1].K == "bad" && t.K == "bad" {
@@ -253,7 +288,7 @@ func tokMM(data []byte, boundary string, n int, sizes []int, cut bool) []Tok {
 				add(t)
 			}
 		default:
-			if t, ok := matchMMPayload(ln, n, sizes); ok {
+			if t, ok := match(ln); ok {
 				add(t)
 			} else {
 				t := tok("bad")
@@ -262,7 +297,9 @@ func tokMM(data []byte, boundary string, n int, sizes []int, cut bool) []Tok {
 			}
 		}
 	}
-	if last != "" && !cut {
+	if isErrBlob(last) {
+		add(tok("errblob"))
+	} else if last != "" && !cut {
 		t := tok("bad")
 		t.Raw = "unterminated: " + excerpt([]byte(last), 120)
 		add(t)
